@@ -242,6 +242,10 @@ func (r *Runner) runHarness(rel string, fn *ssa.Function, workers int) *HarnessR
 		x := &ssaexec.Exec{Prog: r.L.Prog, C: c, S: s}
 		x.Opt = ssaexec.Options{MaxUnwind: o.MaxUnwind, MaxSteps: o.MaxSteps, MaxSplit: o.MaxSplit, InitPkgs: initPkgs, MapOrders: o.MapOrders, Workers: o.Workers, Tier: tier}
 		x.Opt.IfConv = o.IfConv
+		if tp := os.Getenv("GOSMT_TAPE"); tp != "" {
+			b, _ := os.ReadFile(tp)
+			json.Unmarshal(b, &x.TapeIn)
+		}
 		if len(o.Merge) > 0 {
 			x.Opt.Merge = map[string]bool{}
 			for _, m := range o.Merge {
@@ -250,6 +254,10 @@ func (r *Runner) runHarness(rel string, fn *ssa.Function, workers int) *HarnessR
 		}
 		if o.Alloc {
 			x.Opt.AllocLimit = func(n int) int64 { return 64*int64(n) + 16<<20 }
+		}
+		if o.Mode == "U" {
+			x.LiftMode = "U"
+			x.NewLifter = func(c *smt.Ctx) ssaexec.Lifter { return lift.NewU(c) }
 		}
 		if o.Mode == "R" {
 			x.LiftMode = "R"
